@@ -59,6 +59,7 @@ class ClientRun:
         self.nops = 0
         self.last = self._proj()
         self.last_ns = 0
+        self.hello_seen: set[int] = set()
         self.loop.after_callback = self._after_callback
 
     # ------------------------------------------------------------ projection
@@ -234,16 +235,44 @@ class ClientRun:
 
         self.inject("env", {"e": "handshake"}, fn)
 
+    def _owner_of(self, tr) -> int:
+        for i, c in enumerate(self.conns):
+            fh = c._frame_helper
+            if fh is not None and getattr(fh, "_transport", None) is tr:
+                return i + 1
+        return 0
+
     def ev_chunk(self, ms: list):
         w = self.w
+        hello = [m for m in ms if m["k"] == "hello"]
+        # a HelloResponse carries the device's name: logged with the connection it is for
+        cause, args = ("EnvHello", {"e": "chunk", "ks": [m["k"] for m in ms], "i": 0, "n": hello[0].get("name", "")}) if hello else ("env", {"e": "chunk", "ks": [m["k"] for m in ms]})
 
         def fn():
             c, tr = w.codec, w.tr
             if c is None or tr is None or not tr.can_receive() or (c.noise and not c.nd.handshake_done):
                 return False
+            if hello:
+                i = self._owner_of(tr)
+                conn = self.conns[i - 1] if i else None
+                # only the first HelloResponse of a connection that is waiting for it counts (i = 0: an unsolicited one)
+                if conn is not None and STATE[conn.connection_state.name] == "hsdone" and i not in self.hello_seen:
+                    self.hello_seen.add(i)
+                    args["i"] = i
             return w.send_msgs([device_message(m) for m in ms])
 
-        self.inject("env", {"e": "chunk", "ks": [m["k"] for m in ms]}, fn)
+        self.inject(cause, args, fn)
+
+    def ev_expect(self, name: str):
+        """The application sets (or clears, 'none') APIClient.expected_name."""
+
+        def fn():
+            c = self.client._connection
+            if c is not None and STATE[c.connection_state.name] in ("opened", "hsdone") and (self._pending("finish") or self._pending("connect")):
+                return False  # not while a finish phase is evaluating names: the moment the change takes effect would be ambiguous
+            self.client.expected_name = None if name == "none" else name
+
+        self.inject("UserExpect", {"n": name}, fn)
 
     def ev_eof(self):
         """The peer closes the socket: the connection that owns the transport is closed in this very callback."""
@@ -310,6 +339,8 @@ class ClientRun:
         self.settle()
         self.loop.after_callback = None
         self.unhandled = [repr(c.get("exception")) for c in self.loop.unhandled]
+        if self.loop.harness_errors:
+            raise RuntimeError("harness: exception in the harness's own callback code: " + "; ".join(self.loop.harness_errors[:3]))
         self.client_mod.APIConnection = self._orig_conn_cls
         self._orig_conn_cls._add_message_callback_without_remove = self._orig_add
         self.w.close()
@@ -519,6 +550,12 @@ def tokens_to_schedule(cfg: dict, toks: list, variant: int) -> list:
             sch += [("ev", "disconnect", bool(t[1]))] + g
         elif k == "api":
             sch += [("ev", "api", API_SAMPLE[(n + variant) % len(API_SAMPLE)])] + g
+        elif k == "expect":
+            sch += [("ev", "expect", t[1])] + g
+        elif k == "hello":
+            sch += ([("ev", "handshake"), ("iter", 1)] if cfg.get("noise") else []) + [("ev", "chunk", [{"k": "hello", "major": 1, "name": t[1]}] + ([CONNECT_OK] if cfg.get("login") else []))] + g
+        elif k == "phase" and t[1] == "badname":
+            sch += ([("ev", "handshake")] if cfg.get("noise") else [("iter", 1)]) + g
         elif k == "phase":
             res, kind = t[1], t[2]
             if kind == "start":
@@ -544,3 +581,38 @@ def tokens_to_schedule(cfg: dict, toks: list, variant: int) -> list:
             sch += ([("ev", "chunk", [{"k": "discresp"}])] if (n + variant) % 2 else [("tick",)]) + g
     sch += [("idle",), ("ev", "start"), ("idle",), ("ev", "resolve", "err"), ("idle",), ("tick",), ("tick",)]
     return sch
+
+
+def names_family(cfgs: list) -> list:
+    """Expected device name set / changed / cleared on the client at every point of a connect (before start, between
+    the phases, after a session), devices that answer with the expected, another or no name, over several sessions
+    of one client: a session exists only with a correctly named device, and the bad-name error only for a wrong name."""
+    out = []
+    for cfg in cfgs:
+        for split in (True, False):
+            for when in ("before", "between", "never"):
+                if when == "between" and not split:
+                    continue
+                for exp in ("dev", "oth"):
+                    for name1 in ("dev", "oth", ""):
+                        for name2 in ("dev", "oth"):
+                            sch = []
+                            if when == "before":
+                                sch += [("ev", "expect", exp), ("idle",)]
+                            sch += [("ev", "start") if split else ("ev", "connect"), ("idle",), ("ev", "resolve", "ok"), ("idle",), ("ev", "tcp", "ok"), ("idle",)]
+                            if when == "between":
+                                sch += [("ev", "expect", exp), ("idle",)]
+                            if split:
+                                sch += [("ev", "finish"), ("idle",)]
+                            if cfg.get("noise"):
+                                sch += [("ev", "handshake"), ("idle",)]
+                            sch += [("ev", "chunk", [{"k": "hello", "major": 1, "name": name1}] + ([CONNECT_OK] if cfg.get("login") else [])), ("idle",),
+                                    ("ev", "api", "switch_command"), ("idle",), ("ev", "disconnect", True), ("idle",)]
+                            # a second session of the same client: the device now answers as name2
+                            sch += [("ev", "connect"), ("idle",), ("ev", "resolve", "ok"), ("idle",), ("ev", "tcp", "ok"), ("idle",)]
+                            if cfg.get("noise"):
+                                sch += [("ev", "handshake"), ("idle",)]
+                            sch += [("ev", "chunk", [{"k": "hello", "major": 1, "name": name2}] + ([CONNECT_OK] if cfg.get("login") else [])), ("idle",),
+                                    ("ev", "expect", "none"), ("ev", "disconnect", True), ("idle",), ("tick",)]
+                            out.append((cfg, sch))
+    return out
